@@ -782,10 +782,10 @@ func runCrashCase(c core.Case, focus string) core.Result {
 	cc.env = []string{"GOGC=off", "GOMEMLIMIT=2GiB", "GOMAXPROCS=" + gmp, "GOTRACEBACK=single"}
 	offset, stride := int(c.Int("offset", 0)), int(c.Int("stride", 1))
 	maxPoints := int(c.Int("maxpoints", 1000))
-	seqEvery := int(c.Int("seqevery", 0))   // two-crash sequences at every seqEvery-th crash point
-	depth3 := c.Int("depth3", 0) == 1       // one three-crash sequence per two-crash sequence family
-	images := c.Int("images", 0) == 1       // C14 torn-tail images
-	dense := c.Int("dense", 0) == 1         // all cuts for gaps up to 400 bytes
+	seqEvery := int(c.Int("seqevery", 0)) // two-crash sequences at every seqEvery-th crash point
+	depth3 := c.Int("depth3", 0) == 1     // one three-crash sequence per two-crash sequence family
+	images := c.Int("images", 0) == 1     // C14 torn-tail images
+	dense := c.Int("dense", 0) == 1       // all cuts for gaps up to 400 bytes
 	points, seqs, imgs, inflightPoints, multiInflight, cutBytes := 0, 0, 0, 0, 0, 0
 	var sample []string
 	for i := 0; i < maxPoints && len(res.Violations) < 8; i++ {
@@ -1191,7 +1191,7 @@ func init() {
 	common := "a workload process executes a seeded program (20-60 transactions of 1-6 Set/Delete with unique values, thresholds that force rotation, flush and compaction every few commits; drained = the flusher is awaited after each commit so the operation sequence is deterministic, free-running = flusher concurrent, 1-3 writers with disjoint keys) and is killed with os.Exit inside the hook before its N-th mutating file-system operation (create/write/fsync/rename/remove of wal and table files); every N of the program is enumerated (cases partition N by residue class; quick samples every second class of free-running programs); a fresh process recovers, reads every key, commits to every key, closes, reopens and reads again; oracle = acknowledgement log written outside the database directory (CALL before Update, ACK after it returned nil)"
 	core.Register(&core.Check{
 		Prop: "C03", Level: "fault_enumeration",
-		Rule: common + "; acknowledged writes must be visible, keys of the commit in flight old or new, no alien values, Open must succeed, post-recovery commits retained; at every 8th (thorough) / 24th (quick) crash point the recovery is itself killed before each of its operations and recovered again (thorough: a third crash inside the second recovery); evidence counts crash points and sequences (evaluations), all distinct by (program, kill index[, recovery kill indices]); non-trivial = the kill actually happened and the recovery was judged",
+		Rule:     common + "; acknowledged writes must be visible, keys of the commit in flight old or new, no alien values, Open must succeed, post-recovery commits retained; at every 8th (thorough) / 24th (quick) crash point the recovery is itself killed before each of its operations and recovered again (thorough: a third crash inside the second recovery); evidence counts crash points and sequences (evaluations), all distinct by (program, kill index[, recovery kill indices]); non-trivial = the kill actually happened and the recovery was judged",
 		Gen:      func(tier string, seed int64) []core.Case { return genCrash("C03", tier, seed) },
 		Run:      func(c core.Case) core.Result { return runCrashCase(c, "C03") },
 		Post:     crashPost("C03"),
@@ -1204,7 +1204,7 @@ func init() {
 	})
 	core.Register(&core.Check{
 		Prop: "C04", Level: "fault_enumeration",
-		Rule: common + "; programs are biased to 3-6-key transactions and to memtable thresholds that make a transaction straddle a rotation; rule: among the keys of the transaction whose CALL has no ACK, new and old values must not both occur; evidence counts crash points (evaluations); non-trivial = crash point that fell between CALL and ACK of a transaction writing >=2 keys; distinct by (program, kill index)",
+		Rule:     common + "; programs are biased to 3-6-key transactions and to memtable thresholds that make a transaction straddle a rotation; rule: among the keys of the transaction whose CALL has no ACK, new and old values must not both occur; evidence counts crash points (evaluations); non-trivial = crash point that fell between CALL and ACK of a transaction writing >=2 keys; distinct by (program, kill index)",
 		Gen:      func(tier string, seed int64) []core.Case { return genCrash("C04", tier, seed) },
 		Run:      func(c core.Case) core.Result { return runCrashCase(c, "C04") },
 		Post:     crashPost("C04"),
@@ -1214,7 +1214,7 @@ func init() {
 	})
 	core.Register(&core.Check{
 		Prop: "C14", Level: "fault_enumeration",
-		Rule: common + "; the hook handler tracks the fsynced length of every file (rename carries it over); at every crash point that has a file with bytes beyond its synced length, images are built in which that file is cut to every length in [synced, size) (gap <= 64 bytes, thorough <= 128) or to {synced, +1, +7..9, middle, -9, -8, -1}, plus one image with all such files cut to their synced length; each image is recovered and judged like C03 without the atomicity rule; at every 16th (quick) / 12th (thorough) crash point the recovery is additionally killed before each of its own operations and the tails left unsynced by the recovery are cut; evidence counts crash points plus images (evaluations); non-trivial = image in which >=1 byte was actually cut; distinct by (program, kill index, file, cut length)",
+		Rule:     common + "; the hook handler tracks the fsynced length of every file (rename carries it over); at every crash point that has a file with bytes beyond its synced length, images are built in which that file is cut to every length in [synced, size) (gap <= 64 bytes, thorough <= 128) or to {synced, +1, +7..9, middle, -9, -8, -1}, plus one image with all such files cut to their synced length; each image is recovered and judged like C03 without the atomicity rule; at every 16th (quick) / 12th (thorough) crash point the recovery is additionally killed before each of its own operations and the tails left unsynced by the recovery are cut; evidence counts crash points plus images (evaluations); non-trivial = image in which >=1 byte was actually cut; distinct by (program, kill index, file, cut length)",
 		Gen:      func(tier string, seed int64) []core.Case { return genCrash("C14", tier, seed) },
 		Run:      func(c core.Case) core.Result { return runCrashCase(c, "C14") },
 		Post:     crashPost("C14"),
